@@ -140,10 +140,12 @@ func parseVideoMeta(m *sdp.Format, video *codec.VideoMeta) {
 }
 
 func parseH264SpsPps(s string, video *codec.VideoMeta) {
-	ppsStr, spsStr, ok := scan.Comma.Scan(s)
+	rest, spsStr, ok := scan.Comma.Scan(s)
 	if !ok {
 		return
 	}
+	// RFC 6184 8.1: further parameter sets may follow the first two
+	_, ppsStr, _ := scan.Comma.Scan(rest)
 
 	sps, err := base64.StdEncoding.DecodeString(spsStr)
 	if err == nil {
